@@ -284,11 +284,11 @@ def handle (op : String) (args : List String) : String :=
     | _, _, _ => "bad-op"
   | "deck.kw", _ => handleKw args
   | "deck.write", [split, rec] => match readRecord rec with
-    | some r => hx (writeRecord idFmt (split == "1") r)
+    | some r => hx (writeRecord idFmt OpmVerif.Gen.RawConsts.outFlushPendingDefaults (split == "1") r)
     | none => "bad-op"
   | "deck.wparse", [sch, split, rec] => match parseSchema sch, readRecord rec with
     | some items, some r =>
-      match parseRecord conv items (writtenRecordText idFmt (split == "1") r) 47 with
+      match parseRecord conv items (writtenRecordText idFmt OpmVerif.Gen.RawConsts.outFlushPendingDefaults (split == "1") r) 47 with
       | none => "err"
       | some r' => showRecord r'
     | _, _ => "bad-op"
